@@ -7,17 +7,17 @@ export CARGO_TARGET_DIR="$TD" CARGO_NET_OFFLINE=true USER=root HOME=/root
 [ -n "$SEED_ENV" ] && export $SEED_ENV
 # SEED_FEATURES: extra cargo args such as "--features vault,registers"; SEED_EXISTING: args for the existing-tests run (default: all)
 cd "$WT" || exit 2
-git checkout -q -- . && git clean -fdq
+git reset -q --hard && git clean -fdq
 git apply "$SD/patch.diff" || { echo "PATCH DOES NOT APPLY"; exit 2; }
 git apply "$SD/demo.diff" || { echo "DEMO DOES NOT APPLY"; exit 2; }
 echo "== with mutation: demo ($DEMO)"
 cargo test --offline -p "$CRATE" $SEED_FEATURES $DEMO 2>&1 | grep -E "^test |test result|error(\[|:)" | tail -15
-git checkout -q -- . ; git clean -fdq
+git reset -q --hard ; git clean -fdq
 git apply "$SD/patch.diff"
 echo "== with mutation: existing tests of $CRATE"
 cargo test --offline -p "$CRATE" $SEED_FEATURES ${SEED_EXISTING:-} 2>&1 | grep -E "test result|FAILED|failed" | tail -12
-git checkout -q -- . ; git clean -fdq
+git reset -q --hard ; git clean -fdq
 git apply "$SD/demo.diff"
 echo "== without mutation: demo"
 cargo test --offline -p "$CRATE" $SEED_FEATURES $DEMO 2>&1 | grep -E "^test |test result|error(\[|:)" | tail -15
-git checkout -q -- . ; git clean -fdq
+git reset -q --hard ; git clean -fdq
